@@ -72,10 +72,22 @@ def final_checks(w):
                   (step, mS.L, m.L, maxabs(lhs - rhs) if lhs.shape == rhs.shape else -1, cfg['disparity']),
                   sig('prolongate_to', finite_disparity=bool(finite)))
     # ---- (d) virtual hierarchy prolongators
-    for trunc in (False, True):
+    # seeded call order, and the default argument (= the space's own flag) in between: the result must depend
+    # on the argument only, not on what was asked before on the same object
+    vh_order = [(False, True), (True, False)][q.choice(2)]
+    for trunc in vh_order:
         Ps = ctx.call('virtual_hierarchy_prolongators', hs.virtual_hierarchy_prolongators, truncate=trunc)
         if Ps is RAISED():
             return
+        Pd = ctx.call('virtual_hierarchy_prolongators', hs.virtual_hierarchy_prolongators)
+        if Pd is RAISED():
+            return
+        Pe = ctx.call('virtual_hierarchy_prolongators', hs.virtual_hierarchy_prolongators, truncate=bool(hs.truncate))
+        if Pe is RAISED():
+            return
+        ctx.check(len(Pd) == len(Pe) and all(a.shape == b.shape and maxabs(a - b) == 0 for a, b in zip(Pd, Pe)),
+                  'vh-default-argument', 'virtual_hierarchy_prolongators() with the default argument differs from '
+                  'truncate=hs.truncate (%s) after a call with truncate=%s' % (hs.truncate, trunc), sig('vh-default'))
         ctx.check(len(Ps) == L - 1, 'vh-count', '%d prolongators for %d levels' % (len(Ps), L), sig('vh'))
         if len(Ps) != L - 1:
             continue
